@@ -45,7 +45,7 @@ type tblOpModel struct {
 	compileFn *tblFn
 	postFns   map[*tblFn]int // functions called unconditionally from Compile (order)
 	final     map[string]map[*types.TypeName]string
-	vmCases   map[string]*ast.CaseClause
+	vmCases   map[string]ast.Node // the clause (or the `if tag == K` statement) that handles the opcode
 	vmAsserts map[string]map[*types.TypeName]token.Pos
 }
 
@@ -65,7 +65,7 @@ func (m *tblModel) opcodeModel() *tblOpModel {
 	tblModelMu.Unlock()
 	c := m.c
 	o := &tblOpModel{m: m, structs: map[*types.TypeName]*types.Var{}, emitted: map[string][]tblOpBuild{}, stripped: map[string]string{},
-		postFns: map[*tblFn]int{}, vmCases: map[string]*ast.CaseClause{}, vmAsserts: map[string]map[*types.TypeName]token.Pos{}}
+		postFns: map[*tblFn]int{}, vmCases: map[string]ast.Node{}, vmAsserts: map[string]map[*types.TypeName]token.Pos{}}
 	cp := c.Pkg("homescript/compiler")
 	rp := c.Pkg("homescript/runtime")
 	// 1. the VM dispatch: a function of package runtime with a parameter whose type is an interface
@@ -207,6 +207,7 @@ func (m *tblModel) opcodeModel() *tblOpModel {
 func (o *tblOpModel) collectVMCases(f *tblFn, sw *ast.SwitchStmt, param types.Object, depth int) {
 	info := f.Pkg.TypesInfo
 	c := o.m.c
+	o.collectVMIfCases(f, sw, param)
 	for _, cl := range sw.Body.List {
 		cc := cl.(*ast.CaseClause)
 		var vals []string
@@ -268,6 +269,20 @@ func (o *tblOpModel) collectVMCases(f *tblFn, sw *ast.SwitchStmt, param types.Ob
 								}
 							}
 						}
+						// the opcode itself handed over next to the instruction: switch on that parameter
+						if tid, ok := g2.defOf(sw2.Tag).(*ast.Ident); ok {
+							if j, isParam := tblParamIndex(cf, cf.Pkg.TypesInfo.Uses[tid]); isParam && j >= 0 && j < len(call.Args) && g2.written[cf.Pkg.TypesInfo.Uses[tid]] == 0 {
+								if ac, ok := o.m.guardFor(f).defOf(call.Args[j]).(*ast.CallExpr); ok && len(ac.Args) == 0 {
+									if se, ok := ast.Unparen(ac.Fun).(*ast.SelectorExpr); ok && se.Sel.Name == o.method {
+										if rid, ok := ast.Unparen(se.X).(*ast.Ident); ok && info.Uses[rid] == param {
+											if next == nil || len(sw2.Body.List) > len(next.Body.List) {
+												next = sw2
+											}
+										}
+									}
+								}
+							}
+						}
 						return true
 					})
 					if next != nil {
@@ -276,6 +291,78 @@ func (o *tblOpModel) collectVMCases(f *tblFn, sw *ast.SwitchStmt, param types.Ob
 				}
 				return true
 			})
+		}
+	}
+}
+
+// collectVMIfCases: opcodes peeled off before the dispatch switch by
+// `if tag == K { …; return }` statements (also else-if chains and `||`) in the
+// statement list that contains the switch.
+func (o *tblOpModel) collectVMIfCases(f *tblFn, sw *ast.SwitchStmt, param types.Object) {
+	info := f.Pkg.TypesInfo
+	g := o.m.guardFor(f)
+	isTag := func(e ast.Expr) bool {
+		call, ok := g.defOf(e).(*ast.CallExpr)
+		if !ok || len(call.Args) != 0 {
+			return false
+		}
+		se, ok := ast.Unparen(call.Fun).(*ast.SelectorExpr)
+		if !ok || se.Sel.Name != o.method {
+			return false
+		}
+		id, ok := ast.Unparen(se.X).(*ast.Ident)
+		return ok && info.Uses[id] == param
+	}
+	var constsOf func(cond ast.Expr) []string
+	constsOf = func(cond ast.Expr) []string {
+		be, ok := ast.Unparen(cond).(*ast.BinaryExpr)
+		if !ok {
+			return nil
+		}
+		switch be.Op {
+		case token.LOR:
+			a, b := constsOf(be.X), constsOf(be.Y)
+			if a == nil || b == nil {
+				return nil
+			}
+			return append(a, b...)
+		case token.EQL:
+			for _, pr := range [][2]ast.Expr{{be.X, be.Y}, {be.Y, be.X}} {
+				if isTag(pr[0]) {
+					if k := ConstOf(info, ast.Unparen(pr[1])); k != nil {
+						return []string{k.Val().ExactString()}
+					}
+				}
+			}
+		}
+		return nil
+	}
+	var stmt ast.Node = sw
+	if ls, ok := g.parents[sw].(*ast.LabeledStmt); ok {
+		stmt = ls
+	}
+	blk, ok := g.parents[stmt].(*ast.BlockStmt)
+	if !ok {
+		return
+	}
+	for _, s := range blk.List {
+		if ast.Node(s) == stmt {
+			break
+		}
+		for is, _ := s.(*ast.IfStmt); is != nil; {
+			vals := constsOf(is.Cond)
+			if vals != nil && o.m.tblTerminates(info, is.Body.List) {
+				asserts := map[*types.TypeName]token.Pos{}
+				o.assertsOn(f, param, is.Body, vals, asserts, 0)
+				for _, v := range vals {
+					if _, dup := o.vmCases[v]; !dup {
+						o.vmCases[v] = is
+						o.vmAsserts[v] = asserts
+					}
+				}
+			}
+			next, _ := is.Else.(*ast.IfStmt)
+			is = next
 		}
 	}
 }
@@ -351,12 +438,49 @@ func (o *tblOpModel) opcodesAt(f *tblFn, e ast.Expr, at ast.Node) (map[string]bo
 		return map[string]bool{tv.Value.ExactString(): true}, ""
 	}
 	g := o.m.guardFor(f)
-	// x.Opcode() under a case of switch x.Opcode()
+	// what the guards in force allow (x.Opcode() under a case of switch x.Opcode(); `if op != K`)
+	var allowed map[string]bool
 	if p := g.pathOf(e); p != nil {
 		if ft := g.factsAt(at).get(p); ft != nil {
-			return ft.Allowed, ""
+			allowed = ft.Allowed
 		}
 	}
+	// what can be stored there: the constants assigned / returned / held by the tables it is read from
+	prod, why := o.opcodeProducers(f, e)
+	if prod == nil {
+		if ts := o.m.origin().constValues(f, e); ts.unknown == "" && len(ts.consts) > 0 {
+			prod = map[string]bool{}
+			for v := range ts.consts {
+				prod[v] = true
+			}
+		} else if ts.unknown != "" && why == "" {
+			why = ts.unknown
+		}
+	}
+	switch {
+	case prod != nil && allowed != nil:
+		out := map[string]bool{}
+		for v := range prod {
+			if allowed[v] {
+				out[v] = true
+			}
+		}
+		return out, ""
+	case prod != nil:
+		return prod, ""
+	case allowed != nil:
+		return allowed, "" // nothing known about the producers (an instruction in hand): the guard alone
+	}
+	if why == "" {
+		why = "cannot reduce " + exprStr(e) + " to opcode constants"
+	}
+	return nil, why
+}
+
+// opcodeProducers: the opcode constants a local variable / call result / table
+// lookup can yield (flow-insensitive).
+func (o *tblOpModel) opcodeProducers(f *tblFn, e ast.Expr) (map[string]bool, string) {
+	info := f.Pkg.TypesInfo
 	// local variable: every constant assigned to it in the function (flow-insensitive)
 	if id, ok := e.(*ast.Ident); ok {
 		obj := info.Uses[id]
